@@ -267,7 +267,8 @@ func spxServerRules(x *spxInst, sc *spxScenario, prop string, add func(rule, sha
 				refused := false
 				if so := h.Streams[id]; so != nil {
 					for _, code := range so.Rst {
-						refused = refused || code == cREFUSED
+						// RFC 7540 5.1.2: over the limit is a stream error of type PROTOCOL_ERROR or REFUSED_STREAM
+						refused = refused || code == cREFUSED || code == cPROTOCOL
 					}
 				}
 				if refused == (seen[id] == 1) {
